@@ -477,6 +477,13 @@ def cases(rng, tier):
             if c:
                 c.update({'order': None, 'evs': c['events'], 'nbw': sum(1 for e in c['events'] if e[0] == 'bw'), 'tree': False})
                 out.append(c)
+    # the caller's upstream-gradient tensor object reused across backward calls (a result and then a result built on top of it, the same
+    # root twice; g also an operand / a view): leaf gradients after every call, and the caller's array unchanged (histories of C03)
+    for k in range(8 if tier == 'quick' else 200):
+        c = c03.upstream_case(rng)
+        if c:
+            c.update({'order': None, 'evs': c['events'], 'nbw': sum(1 for e in c['events'] if e[0] == 'bw'), 'tree': False})
+            out.append(c)
     if tier == 'thorough':
         # EXHAUSTIVE sub-family: a fixed graph  x, w leaves; a = x*w; b = a + x; c = a*b (diamond with fan-out); every history of
         # length <= 4 over {backward from a / b / c / x, retain_grad(a), retain_grad(b), zero x, enter / exit retain_grads}
@@ -523,6 +530,14 @@ def corpus():
     P = gen_dag.Prog(); x = P.add_leaf((2,), [1., 2.], True)
     y = P.add_op('mul', [x, x], [], [(2,)])[0]; z = P.add_op('sum', [y], ['all', 0], [()])[0]; w = P.add_op('mean', [y], ['all', 0], [()])[0]
     yield P, [('op', 1), ('retain', y), ('op', 2), ('bw', z, [1.0]), ('op', 3), ('bw', w, [3.0]), ('bw', y, [1., -1.])]
+    # an overflowed gradient (inf / nan entries) followed by a reset through each route in turn (the executor cycles Module.zero_grad,
+    # Optimizer.zero_grad, Tensor.zero_ over successive resets of a leaf that is an nn.Parameter) and a finite backward: the reset
+    # installs zeros, so the gradient afterwards is the finite one
+    inf, nan = float('inf'), float('nan')
+    data = next(d for d in ([float(k + i) for i in range(2)] for k in range(1, 60)) if sum(map(ord, common.show_floats(d)[:64])) % 2 == 0)
+    P = gen_dag.Prog(); x = P.add_leaf((2,), data, True)
+    yield P, [('bw', x, [inf, 1.0]), ('zero', x), ('bw', x, [1., 2.]), ('bw', x, [nan, -inf]), ('zero', x), ('bw', x, [2., 2.]),
+              ('bw', x, [inf, inf]), ('zero', x), ('bw', x, [3., 1.])]
 
 
 class TreeImpl(tprog.Impl):
